@@ -1,5 +1,5 @@
 (* C03 - Everything the authenticator emits is CTAP2 canonical CBOR. *)
-From Ctap Require Import Base Schema Wire Typed Procs Inst Tables ProcTables Canonical WireP SerP FramingP C03P ObSerRole ObDeclOrder FnShapes Shapes ObShapeResponse ObShapeFilters Deps ObDeps ObShapeAuthdata ObShapeBuilders.
+From Ctap Require Import Base Schema Wire Typed Procs Inst Tables ProcTables Canonical WireP SerP FramingP C03P ObSerRole ObDeclOrder FnShapes Shapes ObShapeResponse ObShapeFilters Deps ObDeps ObShapeAuthdata ObShapeBuilders PlainDecls ObPlainAuthdata ObPlainBuilders.
 Local Open Scope string_scope.
 Local Open Scope Z_scope.
 
@@ -80,6 +80,12 @@ Proof. exact generated_shapes_authdata. Qed.
 Theorem c03_modelled_functions_unchanged_builders : shapes_hold fn_shapes shapes_builders = true.
 Proof. exact generated_shapes_builders. Qed.
 
+(* the plain structures (no serde meaning of their own) whose member types the model relies on *)
+Theorem c03_plain_structures_unchanged_authdata : plain_hold raw_decls plain_authdata = true.
+Proof. exact generated_plain_authdata. Qed.
+Theorem c03_plain_structures_unchanged_builders : plain_hold raw_decls plain_builders = true.
+Proof. exact generated_plain_builders. Qed.
+
 Eval vm_compute in "ASSUMPTIONS c03_all_structs_ordered". Print Assumptions c03_all_structs_ordered.
 Eval vm_compute in "ASSUMPTIONS c03_encoder_canonical". Print Assumptions c03_encoder_canonical.
 Eval vm_compute in "ASSUMPTIONS c03_response_body_canonical". Print Assumptions c03_response_body_canonical.
@@ -94,3 +100,5 @@ Eval vm_compute in "ASSUMPTIONS c03_modelled_functions_unchanged_filters". Print
 Eval vm_compute in "ASSUMPTIONS c03_modelled_dependencies_pinned". Print Assumptions c03_modelled_dependencies_pinned.
 Eval vm_compute in "ASSUMPTIONS c03_modelled_functions_unchanged_authdata". Print Assumptions c03_modelled_functions_unchanged_authdata.
 Eval vm_compute in "ASSUMPTIONS c03_modelled_functions_unchanged_builders". Print Assumptions c03_modelled_functions_unchanged_builders.
+Eval vm_compute in "ASSUMPTIONS c03_plain_structures_unchanged_authdata". Print Assumptions c03_plain_structures_unchanged_authdata.
+Eval vm_compute in "ASSUMPTIONS c03_plain_structures_unchanged_builders". Print Assumptions c03_plain_structures_unchanged_builders.
